@@ -91,7 +91,7 @@ def prop(pid, rules, explanation, decides, does_not_decide, **kw):
 RUNTIME = "run-time equalities over all inputs (round trips, byte equality with independent codecs) — quantify over values; only the named structural necessary conditions are decided"
 
 prop("C01", [rw.r_layout_w, rw.r_fieldmap_w, rr.r_fieldmap_r, rr.r_addr_open, rr.r_exact_tile, rh.r_round, st.r_hashid, st.r_finish_pair, st.r_rle_dep, st.r_order,
-              rs.r_budget, rs.r_leafptr, rs.r_reseek, rd.r_cols_reader, rd.r_cols_writer, rr.r_walk, rr.r_meta0, rh.r_hdr_io],
+              rs.r_budget, rs.r_leafptr, rs.r_reseek, rd.r_cols_reader, rd.r_cols_writer, rr.r_walk, rr.r_meta0, rh.r_hdr_io, st.r_add_pair, st.r_remove_guard, st.r_lookup, rt.r_factory, rr.r_bounded_read],
      "Necessary conditions of the write→read round trip, decided on both twins: header settings are paired field by field in writer and opener (R-FIELDMAP), section "
      "offsets/lengths equal the measured writes (R-LAYOUT-W, affine stream model), the opener rebases entry offsets by tile_data_offset and the lookup reads exactly "
      "(offset,length) (R-ADDR/R-EXACT-TILE), coordinates are rounded to nearest (R-ROUND), contents are laid out once with offsets read before the append "
@@ -100,7 +100,7 @@ prop("C01", [rw.r_layout_w, rw.r_fieldmap_w, rr.r_fieldmap_r, rr.r_addr_open, rr
      ["R-FIELDMAP", "R-LAYOUT-W", "R-REL", "R-ADDR", "R-EXACT-TILE", "R-ROUND", "R-FINISH-PAIR", "R-COUNTERS", "R-HASHID", "R-COLS", "R-DELTA", "R-OFFRULE", "R-LEAFPTR", "R-BUDGET", "R-RESEEK", "R-WALK", "R-META0", "R-RLE-DEP", "R-ORDER", "R-HDR-IO"],
      [RUNTIME, "metadata equality through serde_json", "contents larger than 4 GiB"])
 
-prop("C02", [rh.r_hdr_layout, rw.r_hdr_const, rw.r_layout_w, rs.r_budget, rs.r_leafptr, rs.r_reseek, st.r_finish_pair, st.r_rle_dep, rw.r_fieldmap_w, st.r_order, st.r_clustered, rd.r_cols_writer, rc.r_cfg_jsonorder, rh.r_hdr_io],
+prop("C02", [rh.r_hdr_layout, rw.r_hdr_const, rw.r_layout_w, rs.r_budget, rs.r_leafptr, rs.r_reseek, st.r_finish_pair, st.r_rle_dep, rw.r_fieldmap_w, st.r_order, st.r_clustered, rd.r_cols_writer, rc.r_cfg_jsonorder, rh.r_hdr_io, rt.r_factory],
      "Static agreement of the writer with the v3 specification table (/verif/spec/v3.json, transcribed from the spec): derived header byte layout and enum codes "
      "(R-HDR-LAYOUT), spec_version 3, sections laid out back to back after the header with offsets equal to the measured positions, root directory ≤ 16 257 bytes, "
      "counters computed once per entry/content and passed name for name, clustered=true backed by an ascending sort before layout, directory columns in spec order.",
@@ -114,7 +114,7 @@ prop("C03", [rr.r_walk, rr.r_addr_open, rr.r_exact_tile, rr.r_meta0, rr.r_fieldm
      ["R-WALK", "R-ADDR", "R-EXACT-TILE", "R-META0", "R-FIELDMAP (reader)", "R-FIND", "R-COLS/R-DELTA/R-OFFRULE (decoder)"],
      [RUNTIME, "correctness on every foreign layout at run time"])
 
-prop("C04", [st.r_hashid, st.r_add_pair, st.r_remove_guard, st.r_lookup, st.r_rej_empty, rr.r_exact_tile],
+prop("C04", [st.r_hashid, st.r_add_pair, st.r_remove_guard, st.r_lookup, st.r_rej_empty, rr.r_exact_tile, st.r_finish_pair, st.r_rle_dep, rr.r_addr_open, rr.r_walk, st.r_order],
      "Structural necessary conditions each store mutator must satisfy for the store to behave like a map: add removes the old binding and performs exactly one "
      "consistent insert into each map, remove drops bytes only under an emptiness test made after removing the id, lookup resolves the requested id and answers None "
      "for unknown ids, and content identity is not decided by the 64-bit hash alone (R-HASHID: known finding with a concrete colliding pair).",
@@ -128,7 +128,7 @@ prop("C05", [rd.r_cols_reader, rd.r_cols_writer, rd.r_len0_err, rd.r_dir_twins],
      ["R-COLS", "R-DELTA", "R-OFFRULE", "R-LEN0"],
      [RUNTIME, "codec round trips (library behaviour)"])
 
-prop("C06", [rs.r_budget, rs.r_leafptr, rs.r_reseek, rw.r_layout_w],
+prop("C06", [rs.r_budget, rs.r_leafptr, rs.r_reseek, rw.r_layout_w, rd.r_cols_writer, rd.r_cols_reader, rr.r_walk],
      "The root writers are analysed with the stream-position model: every Ok exit is dominated by a comparison of the *measured* root length against exactly 16 257 "
      "(spill: at most), the fitting case returns an empty leaf section, leaf pointers carry chunk[0].tile_id / cursor position before the leaf write / bytes written / "
      "run_length 0, each retry re-seeks to the remembered start and grows the leaf size, and the archive writer places the returned leaf bytes after the metadata.",
@@ -155,14 +155,14 @@ prop("C09", [rh.r_hdr_layout, rh.r_hdr_io, rh.r_hdr_reject, rh.r_round],
      ["R-HDR-LAYOUT", "R-HDR-IO", "R-HDR-REJECT", "R-ROUND"],
      ["deku's generated code", "the exhaustive 2^32 coordinate claim (implied by R-ROUND and an error bound, not enumerated)"])
 
-prop("C10", [st.r_hashid, st.r_finish_pair, st.r_rle_dep, st.r_remove_guard, st.r_add_pair],
+prop("C10", [st.r_hashid, st.r_finish_pair, st.r_rle_dep, st.r_remove_guard, st.r_add_pair, rr.r_exact_tile, st.r_order, st.r_lookup],
      "Layout: bytes are appended exactly on the dedup miss, once, with the offset read before the append and the length of the appended content; a hit reuses the "
      "stored pair; reader-backed tiles are hashed with the same function; a run is extended only for the adjacent id with an equal offset, by one; in memory, bytes "
      "are dropped only when the last id goes away. R-HASHID (identity by bytes) is a known finding.",
      ["R-FINISH-PAIR", "R-COUNTERS", "R-RLE-DEP", "R-REMOVE-GUARD", "R-ADD-PAIR", "R-HASHID"],
      [RUNTIME, "minimality over all duplication patterns", "retention over edit histories"])
 
-prop("C11", [tt.r_range_end, tt.r_leaf_skip_and_filter, tt.r_partial_same],
+prop("C11", [tt.r_range_end, tt.r_leaf_skip_and_filter, tt.r_partial_same, rr.r_walk, rr.r_addr_open],
      "The inclusive range end is computed without unchecked arithmetic for all three bound kinds; every map insert in the walker is dominated by "
      "filter_range.contains(&id) for the inserted id and the filter is forwarded unchanged; a leaf is skipped only on `first id > inclusive end` (strict, unbounded ⇒ "
      "never, independent of the start bound); full and partial opens are one implementation differing only in the range argument.",
@@ -196,7 +196,7 @@ prop("C15", [rt.r_result_used, rt.r_finalise, rt.r_no_unwrap],
      ["R-RESULT-USED", "R-NO-UNWRAP", "R-FINALISE"],
      ["exhaustive fault points at run time", "completeness of library error paths"])
 
-prop("C16", [st.r_order, st.r_hash_noleak, rc.r_cfg_jsonorder, rh.r_round, st.r_finish_pair],
+prop("C16", [st.r_order, st.r_hash_noleak, rc.r_cfg_jsonorder, rh.r_round, st.r_finish_pair, st.r_add_pair, st.r_remove_guard, st.r_rle_dep, rw.r_layout_w, rs.r_leafptr, rs.r_budget, rd.r_cols_writer, st.r_clustered],
      "Sources of non-canonical output are closed structurally: the only hash-ordered iteration on the write path is sorted ascending by tile id before layout; content "
      "hashes are used only as map keys; serde_json is resolved without preserve_order and ahash with fixed keys; stored coordinates survive decode→encode (R-ROUND); "
      "in-memory and reader-backed tiles take the same layout path.",
